@@ -208,6 +208,7 @@ def explore(system, task, seed, prop, max_violations=3, deadline=None):
 
     def record_violation(v, events):
         st["violations_raw"] += 1
+        st["sig:" + str(v.sig)] += 1
         vsigs[v.sig] += 1
         if vsigs[v.sig] > max_violations:
             return
